@@ -52,6 +52,23 @@ Proof.
   - intros H. split; [split|]; try lia; auto. apply days_cover; exact H.
 Qed.
 
+(** window and metadata filter together: exactly the matching recordings inside the window *)
+Lemma listed_matching_opt s eo now filtered t m :
+  listed_matching s eo now filtered t m = listed_opt s eo now t && (negb filtered || m).
+Proof.
+  unfold listed_matching, listed_opt, relevant, predicates, window_pred, content_pred.
+  destruct filtered; simpl; destruct (existsb _ _), (s <=? t), eo as [e|]; simpl;
+    try destruct (t <=? e); destruct m; reflexivity.
+Qed.
+
+Lemma window_exact_matching s eo now filtered t m : t <= now ->
+  (listed_matching s eo now filtered t m = true <->
+   s <= t <= resolve_end eo now /\ (filtered = true -> m = true)).
+Proof.
+  intros Hn. rewrite listed_matching_opt, andb_true_iff, (window_exact_default s eo now t Hn).
+  destruct filtered, m; simpl; intuition congruence.
+Qed.
+
 (** the enumeration has no duplicate folder (so no recording is listed twice through two folders) *)
 Lemma days_nodup n s : NoDup (days_of n s).
 Proof.
